@@ -488,6 +488,27 @@ def peval(fn, start, known, max_paths=400, max_steps=60000, _depth=0):
                     cv = _callee_constant(fn, t, known, _depth)
                     if cv is not None:
                         env[t["dest"]["l"]] = ("c", cv, str(cv))
+                    # `cond.then_some(v)` is `if cond { Some(v) } else { None }`: modelled like the aggregates it stands for
+                    if cal.endswith("bool::then_some") or cal.endswith("<impl bool>::then_some") or cal.split("::")[-1] == "then_some":
+                        args_ = t.get("args", [])
+                        cnd = _const_of(fn, args_[0], env) if args_ else None
+                        pay = _const_of(fn, args_[1], env) if len(args_) > 1 else None
+                        ptxt = show(fn.expr(args_[1], 2)) if len(args_) > 1 else "?"
+                        if cnd is not None and cnd[0] == "c" and cnd[1] in (0, 1):
+                            outcomes = [cnd[1]]
+                        else:
+                            outcomes = [1, 0]
+                        for oc in outcomes[1:]:
+                            ev2 = list(events) + [("agg", "std::option::Option", "None", b, ())]
+                            w2 = dict(wenv)
+                            w2[t["dest"]["l"]] = ("None", None)
+                            work.append((t["t"], dict(env), tuple(ev2), seen, w2))
+                        if outcomes[0] == 1:
+                            events.append(("agg", "std::option::Option", "Some", b, (ptxt,)))
+                            wenv[t["dest"]["l"]] = ("Some", pay)
+                        else:
+                            events.append(("agg", "std::option::Option", "None", b, ()))
+                            wenv[t["dest"]["l"]] = ("None", None)
                 b = t["t"]
                 continue
             if k == "switch":
